@@ -50,6 +50,7 @@ func vNewSession(budget int, auth []byte) *vSession {
 	vAssert(err == nil, "SID failed")
 	s.relay = newRelay(sid, budget)
 	s.relay.delFail = vParam("delfail", 0) != 0
+	s.relay.refuseOpt = vParam("refuse", 0) != 0
 	if budget > 0 {
 		s.relay.skip = vIntRange("relay_skip", 0, vParam("maxskip", 0))
 		s.relay.texts = vParam("errtexts", 0) != 0
